@@ -25,6 +25,19 @@ fn mk_peer(client: u64) -> Peer {
     Peer { aw: Awareness::with_clock(doc, || 0u64), out, _sub: sub }
 }
 
+/// a transaction that only deletes (root text / array / map / XML children): no clock advances
+fn random_delete(txn: &mut yrs::TransactionMut, r: &mut Rng, script: &mut Vec<String>) {
+    use yrs::{Array, Map, Text, XmlFragment, WriteTxn};
+    for _ in 0..4 {
+        match r.below(4) {
+            0 => { let t = txn.get_or_insert_text(ROOT_TEXT); let pos = text_positions(&t.diff(txn, yrs::types::text::YChange::identity), txn, false); let n = pos.len() - 1; if n > 0 { let i = r.below(n as u64) as usize; let j = r.range(i as u64 + 1, n as u64) as usize; script.push(format!("t.remove({},{})", pos[i], pos[j] - pos[i])); t.remove_range(txn, pos[i], pos[j] - pos[i]); return; } }
+            1 => { let a = txn.get_or_insert_array(ROOT_ARRAY); let n = a.len(txn); if n > 0 { let i = r.below(n as u64) as u32; let l = r.range(1, (n - i) as u64) as u32; script.push(format!("a.remove({i},{l})")); a.remove_range(txn, i, l); return; } }
+            2 => { let m = txn.get_or_insert_map(ROOT_MAP); let mut ks: Vec<String> = m.keys(txn).map(|k| k.to_string()).collect(); ks.sort(); if !ks.is_empty() { let k = r.pick(&ks).clone(); script.push(format!("m.remove({k:?})")); m.remove(txn, &k); return; } }
+            _ => { let x = txn.get_or_insert_xml_fragment(ROOT_XML); let n = x.len(txn); if n > 0 { let i = r.below(n as u64) as u32; script.push(format!("x.remove({i},1)")); x.remove_range(txn, i, 1); return; } }
+        }
+    }
+}
+
 fn handshake_case(seed: u64, index: u64, rep: &mut Report) {
     let mut r = Rng::for_case(seed, 118, index);
     let mut peers = [mk_peer(1), mk_peer(2)];
@@ -35,6 +48,22 @@ fn handshake_case(seed: u64, index: u64, rep: &mut Report) {
     for p in 0..2 { for _ in 0..r.below(4) { let mut sc = vec![]; { let mut txn = peers[p].aw.doc().transact_mut(); random_call(peers[p].aw.doc(), &mut txn, &mut r, &ecfg, false, &mut sc, &mut tag); } script.push(format!("p{} offline {{{}}}", p, sc.join("; "))); } peers[p].out.lock().unwrap().clear(); }
     // a shared past in half of the cases
     if r.chance(1, 2) { let u = peers[0].aw.doc().transact().encode_state_as_update_v1(&yrs::StateVector::default()); let _ = peers[1].aw.doc().transact_mut().apply_update(yrs::Update::decode_v1(&u).unwrap()); peers[1].out.lock().unwrap().clear(); script.push("p1 had p0's past".into()); }
+    // ... and in a third of the cases the peers were fully in sync once and went offline again afterwards; what a peer does then
+    // is often deletion only, which leaves its state vector where it was (the handshake has to carry delete sets whatever the
+    // state vectors say)
+    if r.chance(1, 3) {
+        for (a, b) in [(0usize, 1usize), (1, 0)] { let u = peers[a].aw.doc().transact().encode_state_as_update_v1(&peers[b].aw.doc().transact().state_vector()); let _ = peers[b].aw.doc().transact_mut().apply_update(yrs::Update::decode_v1(&u).unwrap()); }
+        script.push("both were in sync, then went offline".into());
+        for p in 0..2 {
+            for _ in 0..r.below(3) {
+                let mut sc = vec![];
+                { let mut txn = peers[p].aw.doc().transact_mut(); if r.chance(2, 3) { random_delete(&mut txn, &mut r, &mut sc); } else { random_call(peers[p].aw.doc(), &mut txn, &mut r, &ecfg, false, &mut sc, &mut tag); } }
+                script.push(format!("p{} offline {{{}}}", p, sc.join("; ")));
+            }
+            peers[p].out.lock().unwrap().clear();
+        }
+        rep.count("handshakes_after_an_earlier_sync");
+    }
     let proto = DefaultProtocol;
     let mut chan: [VecDeque<Vec<u8>>; 2] = [VecDeque::new(), VecDeque::new()]; // chan[i] = messages travelling TO peer i
     let mut fails: Vec<serde_json::Value> = vec![];
@@ -207,7 +236,7 @@ fn big_room_case(seed: u64, index: u64, md: &mut Model, rep: &mut Report) {
 }
 
 pub fn run(tier: &str, seed: u64, workers: usize) -> Report {
-    let (nh, na) = if tier == "thorough" { (10000, 5000) } else { (500, 300) };
+    let (nh, na) = if tier == "thorough" { (10000, 5000) } else { (2500, 1000) };
     let mut total = parallel(workers, |w, nw| {
         let mut rep = Report::default();
         let mut md = Model::spawn();
